@@ -28,6 +28,9 @@ type simSock struct {
 	blockWrites bool      // WriteTo blocks until Close or until a deadline ≤ now is set (C08)
 	wdl         time.Time // write deadline
 	closeErr    bool      // Close returns an error
+	closeStuck  bool      // Close returns an error and does not release a pending read (only a deadline does)
+	rdl         time.Time // read deadline
+	rdlCh       chan struct{}
 	blocked     int       // writers currently blocked
 	w      *simWorld
 	side   int
@@ -44,9 +47,29 @@ type simSock struct {
 }
 
 func (s *simSock) ReadFrom([]byte) (int, net.Addr, error) {
-	<-s.done
-
-	return 0, nil, net.ErrClosed
+	for {
+		s.mu.Lock()
+		rdl := s.rdl
+		if s.rdlCh == nil {
+			s.rdlCh = make(chan struct{}, 1)
+		}
+		ch := s.rdlCh
+		s.mu.Unlock()
+		var timer <-chan time.Time
+		if !rdl.IsZero() {
+			d := time.Until(rdl)
+			if d <= 0 {
+				return 0, nil, os.ErrDeadlineExceeded
+			}
+			timer = time.After(d)
+		}
+		select {
+		case <-s.done:
+			return 0, nil, net.ErrClosed
+		case <-ch: // deadline changed
+		case <-timer:
+		}
+	}
 }
 
 func (s *simSock) WriteTo(b []byte, addr net.Addr) (int, error) {
@@ -91,6 +114,9 @@ func (s *simSock) WriteTo(b []byte, addr net.Addr) (int, error) {
 func (s *simSock) Close() error {
 	s.mu.Lock()
 	defer s.mu.Unlock()
+	if s.closeStuck {
+		return errors.New("simSock: injected close failure, socket stays open") //nolint:err113
+	}
 	if !s.closed {
 		s.closed = true
 		close(s.done)
@@ -112,8 +138,27 @@ func (s *simSock) isClosed() bool {
 func (s *simSock) LocalAddr() net.Addr {
 	return &net.UDPAddr{IP: s.priv.Addr().AsSlice(), Port: int(s.priv.Port())}
 }
-func (s *simSock) SetDeadline(t time.Time) error { return s.SetWriteDeadline(t) }
-func (s *simSock) SetReadDeadline(time.Time) error { return nil }
+func (s *simSock) SetDeadline(t time.Time) error {
+	_ = s.SetReadDeadline(t)
+
+	return s.SetWriteDeadline(t)
+}
+
+func (s *simSock) SetReadDeadline(t time.Time) error {
+	s.mu.Lock()
+	s.rdl = t
+	if s.rdlCh == nil {
+		s.rdlCh = make(chan struct{}, 1)
+	}
+	ch := s.rdlCh
+	s.mu.Unlock()
+	select {
+	case ch <- struct{}{}:
+	default:
+	}
+
+	return nil
+}
 func (s *simSock) SetWriteDeadline(t time.Time) error {
 	s.mu.Lock()
 	s.wdl = t
@@ -473,7 +518,12 @@ func (w *simWorld) newAgent(side int, cfg simAgentConfig) (*simAgent, error) {
 
 func (ag *simAgent) close() {
 	verifContactTakers.Delete(ag.a)
-	_ = ag.a.Close()
+	done := make(chan struct{})
+	go func() { _ = ag.a.Close(); close(done) }()
+	select {
+	case <-done:
+	case <-time.After(10 * time.Second): // never hang the harness on a failing case
+	}
 }
 
 func simAddrs(side, idx, gen int, v6 bool, nat bool, reusePorts bool) (priv, pub netip.AddrPort) {
